@@ -1,7 +1,11 @@
 /-
   MiniPy: a deep embedding of the tiny loop-free fragment of Python in which pydap's slice arithmetic is
   written (integers, None, booleans, slice objects, `or`/`and`, comparisons, `is None`, `isinstance(x, int)`,
-  `min`, if/elif/else, assignment, augmented assignment, raise).  `harness/py2lean.py` translates the
+  `min`, if/elif/else, assignment, augmented assignment, raise), extended in a second round for the chunk-header,
+  size/padding and routing blocks: `& | >> << % //`, unary minus, `!=`, text as lists of code points (constants,
+  `==`/`!=`, `[:n]`, `[n:]`, `[i]`, `[::-1]`, `startswith`, `"{0:0Nb}".format`, `int()`, `bool()`, literal str→str
+  dict lookup, `os.path.join(x, "")`), `in` on literal int tuples, `int(np.prod(shape))`, `True`/`False`,
+  `x[a:b]`, `numpy.frombuffer(four bytes, ">u4")[0]`.  `harness/py2lean.py` translates the
   *source text* of the chosen function bodies into `Stmt` values (pure syntax → syntax); the semantics below is the
   trusted reading of that fragment.  Theorems in Props/ relate the interpreted source to the hand-written model.
 -/
@@ -12,11 +16,14 @@ inductive Val where
   | int (i : Int)
   | bool (b : Bool)
   | slice (start stop step : Option Int)     -- slice objects with int-or-None fields
-  | ilist (l : List Int)                     -- a list of ints (`tokens`)
+  | ilist (l : List Int)                     -- a list / tuple of ints (`tokens`, `var.shape`), bytes as ints
+  | str (cs : List Nat)                      -- text as a list of code points
 deriving DecidableEq, Repr, Inhabited
 
 inductive Err where
   | typeError | nameError | indexError | raised (cls : String)
+  | keyError | valueError | zeroDivisionError
+  | unsupported                              -- the operation exists in Python but this semantics does not cover the operands
 deriving DecidableEq, Repr
 
 inductive Expr where
@@ -33,6 +40,26 @@ inductive Expr where
   | min2 (a b : Expr)
   | mkSlice (a b c : Expr)
   | maxsize                                   -- sys.maxsize
+  -- second round (bit arithmetic, floor division, text)
+  | neg (e : Expr) | ne (a b : Expr)
+  | band (a b : Expr) | bor (a b : Expr) | shr (a b : Expr) | shl (a b : Expr)
+  | mod (a b : Expr) | floordiv (a b : Expr)
+  | strc (cs : List Nat)                      -- string constant
+  | eqStr (a b : Expr)                        -- `a == b` where one side is a string constant
+  | neStr (a b : Expr)
+  | inInts (e : Expr) (l : List Int)          -- `e in (1, 2, 3)` / `e in [1, 2, 3]` (literal ints)
+  | fmtBin (w : Nat) (e : Expr)               -- `"{0:0<w>b}".format(e)`
+  | rev (e : Expr)                            -- `e[::-1]`
+  | intOf (e : Expr) | boolOf (e : Expr)      -- `int(e)`, `bool(e)`
+  | strMap (tbl : List (List Nat × List Nat)) (k : Expr)   -- `{"0": ">", "1": "<"}[k]` (literal str → str dict)
+  | prod (e : Expr)                           -- `int(np.prod(e))` of a tuple of ints
+  | takeN (e : Expr) (n : Nat)                -- `e[:n]`
+  | dropN (e : Expr) (n : Nat)                -- `e[n:]`
+  | startswith (a b : Expr)                   -- `a.startswith(b)`
+  | joinEmpty (e : Expr)                      -- `os.path.join(e, "")` (posixpath)
+  | boolc (b : Bool)                          -- `True` / `False`
+  | slice2 (e a b : Expr)                     -- `e[a:b]` with computed non-negative bounds
+  | beU32 (e : Expr)                          -- `numpy.frombuffer(e, dtype=">u4")[0]` of exactly four bytes
 deriving Repr, Inhabited
 
 inductive Stmt where
@@ -60,6 +87,7 @@ def truthy : Val → Bool
   | .bool b => b
   | .slice _ _ _ => true
   | .ilist l => !l.isEmpty
+  | .str cs => !cs.isEmpty
 
 def asInt : Val → Except Err Int
   | .int i => .ok i
@@ -76,6 +104,76 @@ def toOpt : Val → Except Err (Option Int)
   | _ => .error .typeError
 
 def MAXSIZE : Int := 9223372036854775807
+
+/-! ### Python integer operators outside `+ - *` -/
+
+/-- `a & b`; only non-negative operands are covered (two's-complement reading of negatives is not modelled) -/
+def pyAnd (a b : Int) : Except Err Int :=
+  if 0 ≤ a ∧ 0 ≤ b then .ok ((a.toNat &&& b.toNat : Nat) : Int) else .error .unsupported
+
+def pyOr (a b : Int) : Except Err Int :=
+  if 0 ≤ a ∧ 0 ≤ b then .ok ((a.toNat ||| b.toNat : Nat) : Int) else .error .unsupported
+
+/-- `a >> b` (arithmetic shift, floor); a negative count is a ValueError -/
+def pyShr (a b : Int) : Except Err Int :=
+  if 0 ≤ b then .ok (a >>> b.toNat) else .error .valueError
+
+def pyShl (a b : Int) : Except Err Int :=
+  if 0 ≤ b then .ok (a * 2 ^ b.toNat) else .error .valueError
+
+/-- `a % b`: Python's remainder has the sign of the divisor (floor) -/
+def pyMod (a b : Int) : Except Err Int :=
+  if b = 0 then .error .zeroDivisionError else .ok (Int.fmod a b)
+
+def pyFloorDiv (a b : Int) : Except Err Int :=
+  if b = 0 then .error .zeroDivisionError else .ok (Int.fdiv a b)
+
+/-! ### text -/
+
+/-- binary digits of `n` as `'0'`/`'1'` code points, most significant first (`"{0:b}".format(n)`) -/
+def binStrAux : Nat → Nat → List Nat → List Nat
+  | 0, _, acc => acc
+  | f + 1, n, acc => if n < 2 then (48 + n) :: acc else binStrAux f (n / 2) ((48 + n % 2) :: acc)
+
+def binStr (n : Nat) : List Nat := binStrAux (n + 1) n []
+
+/-- `"{0:0<w>b}".format(i)` for `i ≥ 0`: left-padded with `'0'` to at least `w` characters -/
+def fmtBin (w : Nat) (i : Int) : Except Err (List Nat) :=
+  if 0 ≤ i then .ok (List.replicate (w - (binStr i.toNat).length) 48 ++ binStr i.toNat) else .error .unsupported
+
+def isDigit (c : Nat) : Bool := 48 ≤ c && c ≤ 57
+
+def digitsVal : List Nat → Nat → Nat
+  | [], acc => acc
+  | c :: cs, acc => digitsVal cs (acc * 10 + (c - 48))
+
+/-- `int(v)`: ints and bools; text only when it is a non-empty run of ASCII digits (signs, blanks, underscores
+    and the ValueError of other text are not modelled) -/
+def pyInt : Val → Except Err Int
+  | .int i => .ok i
+  | .bool b => .ok (if b then 1 else 0)
+  | .str cs => if !cs.isEmpty && cs.all isDigit then .ok (digitsVal cs 0 : Nat) else .error .unsupported
+  | _ => .error .typeError
+
+def strLookup : List (List Nat × List Nat) → List Nat → Except Err Val
+  | [], _ => .error .keyError
+  | (k, v) :: t, x => if k = x then .ok (.str v) else strLookup t x
+
+/-- `posixpath.join(a, "")`: a separator is appended unless `a` is empty or already ends with one -/
+def joinEmpty (a : List Nat) : List Nat :=
+  if a.isEmpty || a.getLast? = some 47 then a else a ++ [47]
+
+/-- `numpy.frombuffer(b, dtype=">u4")[0]`: only a buffer of exactly four bytes (each 0..255) is covered -/
+def beU32 : List Int → Except Err Int
+  | [b0, b1, b2, b3] =>
+    if 0 ≤ b0 ∧ b0 < 256 ∧ 0 ≤ b1 ∧ b1 < 256 ∧ 0 ≤ b2 ∧ b2 < 256 ∧ 0 ≤ b3 ∧ b3 < 256 then
+      .ok (((b0 * 256 + b1) * 256 + b2) * 256 + b3)
+    else .error .unsupported
+  | _ => .error .unsupported
+
+def prodInts : List Int → Int
+  | [] => 1
+  | x :: xs => x * prodInts xs
 
 def eval (env : Env) : Expr → Except Err Val
   | .none => .ok .none
@@ -101,10 +199,14 @@ def eval (env : Env) : Expr → Except Err Val
       | .ilist l => match l[n]? with
         | some v => .ok (.int v)
         | none => .error .indexError
+      | .str cs => match cs[n]? with
+        | some c => .ok (.str [c])
+        | none => .error .indexError
       | _ => .error .typeError
   | .len e => do
       match (← eval env e) with
       | .ilist l => .ok (.int l.length)
+      | .str cs => .ok (.int cs.length)
       | _ => .error .typeError
   | .isNone e => do .ok (.bool (match (← eval env e) with | .none => true | _ => false))
   | .isNotNone e => do .ok (.bool (match (← eval env e) with | .none => false | _ => true))
@@ -122,6 +224,91 @@ def eval (env : Env) : Expr → Except Err Val
       .ok (.int (if y < x then y else x))
   | .mkSlice a b c => do
       .ok (.slice (← toOpt (← eval env a)) (← toOpt (← eval env b)) (← toOpt (← eval env c)))
+  | .neg e => do .ok (.int (- (← asInt (← eval env e))))
+  | .ne a b => do .ok (.bool (decide ((← asInt (← eval env a)) ≠ (← asInt (← eval env b)))))
+  | .band a b => do
+      let x ← asInt (← eval env a)
+      let y ← asInt (← eval env b)
+      .ok (.int (← pyAnd x y))
+  | .bor a b => do
+      let x ← asInt (← eval env a)
+      let y ← asInt (← eval env b)
+      .ok (.int (← pyOr x y))
+  | .shr a b => do
+      let x ← asInt (← eval env a)
+      let y ← asInt (← eval env b)
+      .ok (.int (← pyShr x y))
+  | .shl a b => do
+      let x ← asInt (← eval env a)
+      let y ← asInt (← eval env b)
+      .ok (.int (← pyShl x y))
+  | .mod a b => do
+      let x ← asInt (← eval env a)
+      let y ← asInt (← eval env b)
+      .ok (.int (← pyMod x y))
+  | .floordiv a b => do
+      let x ← asInt (← eval env a)
+      let y ← asInt (← eval env b)
+      .ok (.int (← pyFloorDiv x y))
+  | .strc cs => .ok (.str cs)
+  | .eqStr a b => do
+      match (← eval env a), (← eval env b) with
+      | .str x, .str y => .ok (.bool (decide (x = y)))
+      | _, _ => .error .unsupported
+  | .neStr a b => do
+      match (← eval env a), (← eval env b) with
+      | .str x, .str y => .ok (.bool (decide (x ≠ y)))
+      | _, _ => .error .unsupported
+  | .inInts e l => do .ok (.bool (l.contains (← asInt (← eval env e))))
+  | .fmtBin w e => do .ok (.str (← fmtBin w (← asInt (← eval env e))))
+  | .rev e => do
+      match (← eval env e) with
+      | .str cs => .ok (.str cs.reverse)
+      | .ilist l => .ok (.ilist l.reverse)
+      | _ => .error .typeError
+  | .intOf e => do .ok (.int (← pyInt (← eval env e)))
+  | .boolOf e => do .ok (.bool (truthy (← eval env e)))
+  | .strMap tbl k => do
+      match (← eval env k) with
+      | .str cs => strLookup tbl cs
+      | _ => .error .unsupported
+  | .prod e => do
+      match (← eval env e) with
+      | .ilist l => .ok (.int (prodInts l))
+      | _ => .error .typeError
+  | .takeN e n => do
+      match (← eval env e) with
+      | .str cs => .ok (.str (cs.take n))
+      | .ilist l => .ok (.ilist (l.take n))
+      | _ => .error .typeError
+  | .dropN e n => do
+      match (← eval env e) with
+      | .str cs => .ok (.str (cs.drop n))
+      | .ilist l => .ok (.ilist (l.drop n))
+      | _ => .error .typeError
+  | .startswith a b => do
+      match (← eval env a), (← eval env b) with
+      | .str x, .str y => .ok (.bool (y.isPrefixOf x))
+      | _, _ => .error .unsupported
+  | .joinEmpty e => do
+      match (← eval env e) with
+      | .str cs => .ok (.str (joinEmpty cs))
+      | _ => .error .typeError
+  | .boolc b => .ok (.bool b)
+  | .slice2 e a b => do
+      let v ← eval env e
+      let x ← asInt (← eval env a)
+      let y ← asInt (← eval env b)
+      if 0 ≤ x ∧ x ≤ y then
+        match v with
+        | .ilist l => .ok (.ilist ((l.drop x.toNat).take (y.toNat - x.toNat)))
+        | .str cs => .ok (.str ((cs.drop x.toNat).take (y.toNat - x.toNat)))
+        | _ => .error .typeError
+      else .error .unsupported
+  | .beU32 e => do
+      match (← eval env e) with
+      | .ilist l => .ok (.int (← beU32 l))
+      | _ => .error .typeError
 
 def exec (env : Env) : Stmt → Except Err Env
   | .skip => .ok env
